@@ -429,6 +429,7 @@ def run(ctx):
     ts = j2front.TemplateSet(ctx.root)
     cd = Codec(ts)
     C01.rule_dispatch(ctx, cd, "des", "R-C02-DISPATCH")
+    _codec.rule_union_tag(ctx, cd, "des", "R-C02-TAG")
     _codec.rule_entry(ctx, cd, "des", "R-C02-ENTRY")
     rule_bounded_read(ctx, cd)
     rule_repr_err(ctx, cd)
